@@ -305,9 +305,7 @@ def run(ctx: Context, rep) -> None:
                 rep.ob("C10.close", False, loc=f.loc(c), where=f.qualname,
                        construct=short(c),
                        message="close_shard called from an unexpected function")
-    if n_calls < 2:
-        raise AnalysisError(f"C10.close: {n_calls} close_shard call sites, "
-                            "floor 2")
+    rep.floor("C10.close", n_calls, 2, "instances")
 
 
 _P = "src/sedpack/io/dataset_filler.py"
